@@ -218,7 +218,33 @@ def rule_lane_forms(ctx, prog, rule="R15"):
                     e = strip(c.def_expr(l, d))
                     if isinstance(e, tuple) and e[0] == "agg" and e[2] == "None" and branch_dominates(c, sbb, tr, d[0]):
                         none_on_empty = True
-        ok = good and conv and none_on_empty
+        # every non-None payload handed to from_not_nan_opt is that plain quantile (no second way to compute the result)
+        all_plain = False
+        if conv:
+            argl = c.term(r[4])["args"][0]
+            if argl["k"] in ("move", "copy"):
+                l = argl["pl"]["l"]
+                all_plain = True
+                n_some = 0
+                for d in c.defs_of(l):
+                    if d[0] == "entry" or (isinstance(d[1], tuple)):
+                        continue
+                    e = strip(c.def_expr(l, d))
+                    if isinstance(e, tuple) and e[0] == "agg" and e[2] == "None":
+                        continue
+                    if isinstance(e, tuple) and e[0] == "agg" and e[2] == "Some":
+                        n_some += 1
+                        v = strip(e[3][0])
+                        for _ in range(4):
+                            if isinstance(v, tuple) and v[0] == "call" and v[1] in ("into_scalar", "unwrap", "expect") and v[3]:
+                                v = strip(v[3][0])
+                        if not (isinstance(v, tuple) and v[0] == "call" and v[1] in ("quantile_axis_mut", "quantile_mut")):
+                            all_plain = False
+                            detail += "a lane result is computed as `%s`, not by the plain quantile routine; " % fmt(v)[:80]
+                    else:
+                        all_plain = False
+                all_plain = all_plain and n_some == 1
+        ok = good and conv and none_on_empty and all_plain
         detail += "empty stripped lane → from_not_nan_opt(None)" if (conv and none_on_empty) else "empty-lane result is not from_not_nan_opt(None)"
     ctx.ob(rule, "quantile_axis_skipnan_mut/strip-then-quantile", ok, q.where(), detail, what="skip-NaN quantile is not the plain quantile of the stripped lane")
 
@@ -245,3 +271,69 @@ def rule_lane_forms(ctx, prog, rule="R15"):
         ctx.ob(rule, "%s/result" % name, ok and seed_ok, b.where(),
                "from_not_nan_ref_opt(fold_skipnan(self, seed ∈ {None, first non-NaN-checked element}, …))" if ok and seed_ok else
                "result is `%s`" % fmt(r)[:200], what="value form does not return the fold of the non-NaN elements")
+
+
+# ------------------------------------------------------------------------------------------- R23 ORDER
+
+ORDER_UNSPECIFIED = {
+    # ndarray traversals whose visiting order follows memory layout
+    ("fold", "ndarray"), ("for_each", "ndarray"), ("map_inplace", "ndarray"), ("mapv_inplace", "ndarray"), ("par_for_each", "ndarray"),
+    ("visit", "ndarray"), ("fold_while", "ndarray"),
+}
+LOCAL_ARBITRARY = {"fold_skipnan", "visit_skipnan"}     # documented: "Elements are visited in arbitrary order"
+DOCUMENTED_ARBITRARY_ROOTS = {"fold_skipnan", "visit_skipnan"}
+
+
+def rule_r23(ctx, prog, roots, rule="R23"):
+    """a caller-supplied callback may be driven by an order-unspecified traversal only in the routines documented as
+    visiting in arbitrary order; everywhere else the order in which it sees the elements must be the logical one"""
+    n = 0
+    for root in roots:
+        group = [root] + prog.closures_of(root)
+        for b in group:
+            for bb, t in b.calls():
+                if callee_name(t) not in USER_CALL:
+                    continue
+                f = b.call_arg_exprs(bb)[0]
+                pb, pe = up(prog, b, f)
+                pe = strip(pe)
+                if not (isinstance(pe, tuple) and pe[0] == "param" and pb is root):
+                    continue
+                fty = root.local_ty(pe[1])
+                if not (len(fty) <= 3 or fty.startswith("&mut ") and len(fty) <= 8):
+                    continue   # only generic callback parameters (type parameter F, M, …)
+                n += 1
+                # climb the closure chain: which traversal consumes each enclosing closure?
+                cur = b
+                verdict = "logical"
+                via = []
+                while cur.is_closure:
+                    site = prog.closure_site(cur.key)
+                    if site is None:
+                        break
+                    parent, pbb, psi, ups = site
+                    consumer = None
+                    me = ("agg", "closure", cur.key)
+                    for cbb, ct in parent.calls():
+                        for a in parent.call_arg_exprs(cbb):
+                            sa = strip(a)
+                            if isinstance(sa, tuple) and sa[:3] == me:
+                                consumer = ct
+                    if consumer is not None:
+                        nm = callee_name(consumer)
+                        kr = consumer["callee"].get("krate")
+                        path = consumer["callee"].get("path") or ""
+                        via.append(nm)
+                        unspecified = ((nm, kr) in ORDER_UNSPECIFIED and not (consumer["callee"].get("trait") or "").endswith("Iterator")) \
+                            or (nm in LOCAL_ARBITRARY and path.startswith("maybe_nan::"))
+                        if unspecified:
+                            verdict = "unspecified"
+                    cur = parent
+                ok = verdict == "logical" or root.name in DOCUMENTED_ARBITRARY_ROOTS
+                ctx.ob(rule, "%s/callback-order" % short(root.key), ok, b.where(bb, "term"),
+                       ("the callback is driven through %s: %s" % ("→".join(reversed(via)) or "a direct call",
+                        "logical order" if verdict == "logical" else "arbitrary order, as documented for this routine")) if ok else
+                       "the caller's callback is driven through %s, whose visiting order follows the memory layout, in a routine that does "
+                       "not document arbitrary order: a non-commutative callback gives layout-dependent results" % "→".join(reversed(via)),
+                       what="callback sees elements in layout-dependent order")
+    return n
